@@ -31,3 +31,11 @@ package NoKV
 //@   trusted
 //@   tag ghost-pure
 //@   modifies nothing
+
+// C12: after recovery the oracle hands out timestamps strictly above everything
+// already committed (committed == MaxUint64, i.e. a directory written through the plain
+// non-transactional API, is excluded by the property itself).
+//@ func (*oracle).initCommitState
+//@   property C12
+//@   ensures [next-above-committed] o != nil && committed != 0 && committed < 18446744073709551615 ==> o.nextTxnTs.v > committed
+//@   ensures [never-lowers-next] o != nil && committed < 18446744073709551615 ==> o.nextTxnTs.v >= old(o.nextTxnTs.v)
